@@ -76,7 +76,7 @@ def r2_registration_order(cx):
 
 
 def r3_ignore_wiring(cx):
-    cx.rule("C05.R3", "earlier handlers of a context are told to ignore it before the new handler is recorded", floor=4)
+    cx.rule("C05.R3", "earlier handlers of a context are told to ignore it before the new handler is recorded", floor=6)
     s = cx.repo.module(SF)
     fn = s.func("_register_context_handler", "C05.R3")
     ps = params(fn)
@@ -107,6 +107,18 @@ def r3_ignore_wiring(cx):
     ok = bool(tbl) and U(tbl[0].value) == "%s[-1].context_handlers" % ps[0] and bool(pdef) and "takewhile" in U(pdef[0].value) and "in x.registry" in U(pdef[0].value)
     cx.require(ok, tbl[0] if tbl else fn, "the handler table is that of the highest class in the MRO whose registry has the name",
                construct=short(tbl[0]) if tbl else "(no context_handlers look-up)")
+    # the contexts of an implementation are discovered through its whole dependency tree
+    gc = s.func("_get_ctx_dependencies", "C05.R3")
+    gp = params(gc)[0]
+    loops = [x for x in gc.body if isinstance(x, ast.For)]
+    ok = bool(loops) and isinstance(loops[0].iter, ast.Call) and call_attr(loops[0].iter) == "walk_tree" and U(loops[0].iter.args[0]) == gp and not has_exit(loops[0].body)
+    cx.require(ok, loops[0] if loops else gc, "the contexts an implementation handles are collected over its *transitive* dependency tree (dr.walk_tree): a composite implementation (first_of, head, datasource on datasources) names its context only through its parts",
+               construct="for %s in %s" % (U(loops[0].target), U(loops[0].iter)) if loops else "(no loop)")
+    if loops:
+        tv = U(loops[0].target)
+        adds = [x for x in find_calls(loops[0].body, attr="add")]
+        ok = len(adds) == 1 and U(adds[0].args[0]) == tv and ("issubclass(%s, ExecutionContext)" % tv, True) in guard_texts(adds[0], stop=loops[0])
+        cx.require(ok, adds[0] if adds else loops[0], "every ExecutionContext subclass found in the tree counts as a handled context", construct=short(adds[0]) if adds else "(no add)")
     # add_ignore stores per component
     d = cx.repo.module(DR)
     ai = d.func("add_ignore", "C05.R3")
